@@ -613,6 +613,7 @@ func registerIntrinsics(e *Engine) {
 	}
 
 	registerYAML(e)
+	registerBufModels(e)
 	registerEnv(e)
 	registerMIDI(e)
 }
